@@ -35,6 +35,7 @@ SHAPED = [
     mrec("", "w", ["d"]),             # empty default prefix
     mrec("d", "w"),                   # hits the synonym of the previous one
     mrec("e", "xy"),                  # URI prefix nested inside/around x (no match, but the trie must order them)
+    mrec("b", "y", [], ["yy"]),       # an already registered pair that brings only a fresh URI-prefix synonym
 ]
 RECS = PLAIN + SHAPED
 # a second, small alphabet explored in its own BFS (keeps the main one affordable)
@@ -42,6 +43,7 @@ AUX_RECS = [
     mrec("ß", "v"),                   # case variants of different length: "ß".casefold() == "SS".casefold() == "ss"
     mrec("SS", "V"),
     mrec("ss", "v2", ["k"]),
+    mrec("m", "v3", ["SS"], ["Vß"]),  # the case variant only among the synonyms
     mrec("h", "hu", [], [], "(["),    # an uncompilable pattern is legal input (patterns are not interpreted here)
     mrec("a", "x"),
     mrec("A", "hu"),
@@ -62,13 +64,13 @@ def all_ops(tier, aux=False):
         for cs in (True, False):
             for merge in (False, True):
                 ops.append({"rec": rec_to_json(r), "cs": cs, "merge": merge, "via": "add_record"})
-                if r.pattern is None and (tier == "thorough" or merge):
+                if r.pattern is None and (tier == "thorough" or (merge and (cs or r.prefix in ("A", "ß", "SS")))):
                     ops.append({"rec": rec_to_json(r), "cs": cs, "merge": merge, "via": "add_prefix"})
     return ops
 
 
 QUERY_PREFIXES = ["a", "A", "b", "c", "d", "e", "f", "g", "ß", "SS", "ss", "k", "h", "", "zz"]
-QUERY_URIS = ["x", "X", "y", "z", "w", "xy", "q", "xyzq", "v", "V", "v2", "hu"]
+QUERY_URIS = ["x", "X", "y", "z", "w", "xy", "q", "xyzq", "v", "V", "v2", "hu", "yy"]
 
 
 def queries():
@@ -89,6 +91,7 @@ def queries():
 
 
 Q = queries()
+Q_LIGHT = [q for q in Q if q in ("", "a:1", "A:1", "b:1", "c:1", ":1", "x1", "X1", "y1", "xy1", "z1", "w1", "x", "nodelim")]
 
 
 def apply_op(conv, op):
@@ -137,7 +140,7 @@ def execute(case, ctx=None):
     conv = build(init)
     model = Model(list(init), ":")
     ops = case["ops"]
-    observe(conv, Q, QUERY_PREFIXES)  # observe the initial state on the live object (plants any cache)
+    observe(conv, Q_LIGHT, QUERY_PREFIXES)  # observe the initial state on the live object (plants any cache)
     for step, op in enumerate(ops):
         last = step == len(ops) - 1
         before = canon(conv)
@@ -176,7 +179,10 @@ def execute(case, ctx=None):
                     )
                 )
                 break
-        live = observe(conv, Q, QUERY_PREFIXES)  # observation after *every* step on the same live object
+        if not (last or ctx is None):
+            observe(conv, Q_LIGHT, QUERY_PREFIXES)  # intermediate observation on the live object (plants anything memoised)
+            continue
+        live = observe(conv, Q, QUERY_PREFIXES)  # full observation battery on the same live object after the last step
         if last or ctx is None:
             if ctx is not None:
                 ctx.count("evaluations", len(live) * 2)
@@ -263,7 +269,7 @@ def explore(tier, seed, procs=None):
     if not total.violations and not total.errors:
         tla_phase(tier, total)
     total.samples = samples[:4]
-    total.counters["depth_completed"] = min(l["depth"] for l in total.levels if l["last"]) if total.levels else 0
+    total.counters["depth_completed"] = min((l["depth"] for l in total.levels if l["last"]), default=0)
     return total
 
 
